@@ -95,6 +95,8 @@ type hop struct {
 	Plan  []bool `json:"plan,omitempty"`
 	// resume / dup
 	T int `json:"t,omitempty"`
+	// generator macro the step belongs to (informational: counters only)
+	Tag string `json:"tag,omitempty"`
 }
 
 type history struct {
@@ -217,6 +219,7 @@ type clientView struct {
 	clientID uint64
 	csSeq    uint32
 	sessions []*sessionView // newest first
+	regMs    uint64         // clock reading of the last EXCHANGE_ID / CREATE_SESSION that registered something new
 	opens    map[[2]int]sid // (open-owner, file) -> state ID
 	locks    map[[2]int]sid // (lock-owner, file) -> state ID
 }
@@ -246,6 +249,7 @@ type thread struct {
 	blocked bool // observed waiting in opSequence for the original
 	hung    bool
 	soloC   *cop
+	startMs uint64 // clock reading when the compound was sent
 }
 
 type completion struct {
@@ -268,6 +272,7 @@ type world struct {
 	nextTid uint64
 	info    *hcommon.Info
 	slots   uint32
+	lease   uint64
 	wires   map[string]string // abstract reply -> wire hash
 }
 
@@ -279,6 +284,7 @@ func newWorld(h *history, info *hcommon.Info) *world {
 		rngc:   &counterRNG{},
 		info:   info,
 		slots:  h.Slots,
+		lease:  h.Lease,
 		wires:  map[string]string{},
 	}
 	w.fs = newFakeFS(w.events)
@@ -1073,6 +1079,7 @@ func (w *world) learnExid(c *clientView, verDelta uint64, r opResult) {
 	if r.u1 != c.clientID {
 		// New incarnation: forget everything learnt so far.
 		c.clientID = r.u1
+		c.regMs = w.clock.ms
 		c.sessions = nil
 		c.opens = map[[2]int]sid{}
 		c.locks = map[[2]int]sid{}
@@ -1096,6 +1103,7 @@ func (w *world) learnCS(c *clientView, r opResult) {
 	for i := uint32(0); i < w.slots; i++ {
 		sv.slots = append(sv.slots, &slotView{})
 	}
+	c.regMs = w.clock.ms
 	c.sessions = append([]*sessionView{sv}, c.sessions...)
 	c.csSeq = uint32(r.u2) + 1
 }
@@ -1118,7 +1126,7 @@ type stepOut struct {
 
 func (w *world) newThread(h hop, v *clientView, req *request, plan []bool) *thread {
 	w.nextTid++
-	t := &thread{tid: w.nextTid, hop: h, view: v, req: req}
+	t := &thread{tid: w.nextTid, hop: h, view: v, req: req, startMs: w.clock.ms}
 	t.tk = &token{tid: t.tid, plan: plan, release: make(chan struct{})}
 	if req != nil {
 		t.tk.ioSpecial = req.ioSpec
@@ -1354,6 +1362,9 @@ func (a area) Execute(raw json.RawMessage) (term string, info *hcommon.Info, err
 			continue
 		}
 		info.Events++
+		if o.Tag != "" {
+			info.Ops["macro:"+o.Tag]++
+		}
 		// Replies.
 		var replies, panics []string
 		sort.Slice(comps, func(i, j int) bool { return comps[i].tid < comps[j].tid })
@@ -1376,6 +1387,21 @@ func (a area) Execute(raw json.RawMessage) (term string, info *hcommon.Info, err
 			w.wires[rt] = string(sum[:])
 			info.Outs[fmt.Sprintf("status-%d", c.res.Status)]++
 			kinds[fmt.Sprintf("%d", c.res.Status)] = true
+			if t.req != nil && len(rs) >= 1 && rs[0].opnum == uint32(nfsv4.OP_SEQUENCE) && rs[0].status == 0 {
+				// Lease scenarios: a client heard of through SEQUENCE compounds only.
+				if t.view.clientID != 0 && t.view.idx == t.req.client {
+					span := int(w.clock.ms - t.view.regMs)
+					if uint64(span) > 2*w.lease {
+						info.Outs["lease:seq-accepted-after-2-leases-of-seq-only"]++
+					}
+					if span > info.Extra["max_seq_only_span_ms"] {
+						info.Extra["max_seq_only_span_ms"] = span
+					}
+				}
+				if w.clock.ms-t.startMs > w.lease {
+					info.Outs["lease:parked-compound-outlasts-lease"]++
+				}
+			}
 			if t.hop.Drop {
 				continue
 			}
